@@ -1,0 +1,23 @@
+//go:build verif
+
+package mash
+
+// Machine-checked contracts for /verif/govc (contract-based deductive
+// verification). Comments only; this file compiles to nothing and is only
+// read with the build tag "verif". float64 is treated as a real number; ln is
+// an uninterpreted monotone function (see /verif/specs/40mash.spec).
+
+//@ func FromJaccard
+//@   props C17
+//@   requires k >= 1 && 0.0 <= jac && jac <= 1.0
+//@   ensures result == mashDist(jac, k)
+//@   ensures 0.0 <= result && result <= 1.0
+//@   ensures jac == 1.0 ==> result == 0.0
+//@   ensures jac == 0.0 ==> result == 1.0
+
+//@ func Distance
+//@   props C17
+//@   pure
+//@   requires k >= 1
+//@   ensures result == mashDist(jaccard(mh1.content, mh2.content), k)
+//@   ensures 0.0 <= result && result <= 1.0
